@@ -87,9 +87,14 @@ pub fn run_seed(seed: u64, id: &str, run: u64) -> u64 {
 #[derive(Clone, Debug)]
 pub struct Finding {
     pub property: String,
-    pub class: String,
+    /// Exact classes, or prefixes ending in `*`.
+    pub classes: Vec<String>,
     pub status: String,
+    /// Replay file (relative to the verif root) that demonstrates the finding.
+    pub witness: Option<String>,
     pub what: String,
+    /// Tag of a generator/battery steering rule that avoids this finding's trigger while it is open.
+    pub steer: Option<String>,
 }
 
 pub fn verif_root() -> PathBuf {
@@ -111,17 +116,41 @@ pub fn load_findings() -> Vec<Finding> {
             a.iter()
                 .map(|f| Finding {
                     property: f["property"].as_str().unwrap_or("").to_string(),
-                    class: f["class"].as_str().unwrap_or("").to_string(),
+                    classes: f["classes"]
+                        .as_array()
+                        .map(|a| a.iter().filter_map(|x| x.as_str().map(String::from)).collect())
+                        .unwrap_or_else(|| f["class"].as_str().map(|c| vec![c.to_string()]).unwrap_or_default()),
+                    witness: f["witness"].as_str().map(String::from),
                     status: f["status"].as_str().unwrap_or("open").to_string(),
                     what: f["what"].as_str().unwrap_or("").to_string(),
+                    steer: f["steer"].as_str().map(String::from),
                 })
                 .collect()
         })
         .unwrap_or_default()
 }
 
+impl Finding {
+    pub fn covers(&self, class: &str) -> bool {
+        self.classes.iter().any(|c| match c.strip_suffix('*') {
+            Some(prefix) => class.starts_with(prefix),
+            None => c == class,
+        })
+    }
+    pub fn key(&self) -> String {
+        format!("{} {}", self.property, self.classes.first().cloned().unwrap_or_default())
+    }
+}
+
 pub fn match_open_finding<'a>(fs: &'a [Finding], v: &Violation) -> Option<&'a Finding> {
-    fs.iter().find(|f| f.status == "open" && f.property == v.property && f.class == v.class)
+    fs.iter().find(|f| f.status == "open" && f.property == v.property && f.covers(&v.class))
+}
+
+/// Steering tags currently in force (decided by the parent from the witnesses, see `run_check`).
+pub fn active_steering() -> Vec<String> {
+    std::env::var("VERIF_STEER")
+        .map(|s| s.split(',').filter(|t| !t.is_empty()).map(String::from).collect())
+        .unwrap_or_default()
 }
 
 // ---------------------------------------------------------------------------------------------
@@ -285,7 +314,7 @@ pub fn worker(check: &dyn Check, tier: Tier, widx: u64, nworkers: u64, seed: u64
             }
             Err(Fail::Violation(v)) => {
                 if let Some(f) = match_open_finding(&findings, &v) {
-                    *known_hits.entry(format!("{} {}", f.property, f.class)).or_insert(0) += 1;
+                    *known_hits.entry(f.key()).or_insert(0) += 1;
                     continue;
                 }
                 let raw = write_replay(check, &case, &v, seed, run_id, false);
@@ -299,7 +328,7 @@ pub fn worker(check: &dyn Check, tier: Tier, widx: u64, nworkers: u64, seed: u64
                 let path = if minimised { write_replay(check, &final_case, &final_v, seed, run_id, true) } else { raw.clone() };
                 // a minimised case may turn out to be a known finding's shape
                 if let Some(f) = match_open_finding(&findings, &final_v) {
-                    *known_hits.entry(format!("{} {}", f.property, f.class)).or_insert(0) += 1;
+                    *known_hits.entry(f.key()).or_insert(0) += 1;
                     continue;
                 }
                 violations.push(json!({
@@ -382,12 +411,43 @@ pub fn run_check(check: &dyn Check, tier: Tier) -> i32 {
     let tmp = out_dir().join(format!("work-{}-{}", check.id(), std::process::id()));
     let _ = std::fs::create_dir_all(&tmp);
     println!("check {} tier={} seed={:#x} workers={} runs={}", check.id(), tier.name(), seed, n, check.runs(tier));
+    // Known findings: replay each open witness first. A witness that still fails keeps its
+    // steering rule in force and yields a KNOWN-FINDING line; one that no longer fails lifts
+    // the rule, so a repaired defect is explored again (and would be reported if it returned).
+    let findings = load_findings();
+    let mut steer: Vec<String> = Vec::new();
+    let mut still_failing: Vec<String> = Vec::new();
+    for f in findings.iter().filter(|f| f.status == "open" && f.property == check.id()) {
+        let fails = match &f.witness {
+            Some(w) => {
+                let out = Command::new(&exe).arg("replay").arg(verif_root().join(w)).env_remove("VERIF_STEER").output();
+                match out {
+                    Ok(o) => {
+                        let text = String::from_utf8_lossy(&o.stdout).to_string();
+                        let class = text.lines().find_map(|l| l.trim().strip_prefix("class: ").map(String::from)).unwrap_or_default();
+                        o.status.code() == Some(1) && f.covers(&class)
+                    }
+                    Err(_) => false,
+                }
+            }
+            None => true,
+        };
+        if fails {
+            still_failing.push(f.key());
+            if let Some(t) = &f.steer {
+                steer.push(t.clone());
+            }
+        } else {
+            println!("note: witness of known finding '{}' no longer fails; its steering rule is lifted for this run", f.key());
+        }
+    }
     let mut children = Vec::new();
     for w in 0..n {
         let res = tmp.join(format!("w{w}.json"));
         let child = Command::new(&exe)
             .args(["worker", check.id(), tier.name(), &w.to_string(), &n.to_string(), &seed.to_string()])
             .arg(&res)
+            .env("VERIF_STEER", steer.join(","))
             .stdout(Stdio::inherit())
             .stderr(Stdio::piped())
             .spawn()
@@ -447,10 +507,12 @@ pub fn run_check(check: &dyn Check, tier: Tier) -> i32 {
     }
 
     // known findings: one line each, from the committed file only
-    let findings = load_findings();
     for f in findings.iter().filter(|f| f.status == "open" && f.property == check.id()) {
-        let hits = known_hits.get(&format!("{} {}", f.property, f.class)).copied().unwrap_or(0);
-        println!("KNOWN-FINDING: property={} {} [class {}; reproduced {} time(s) in this run]", f.property, f.what, f.class, hits);
+        if !still_failing.contains(&f.key()) {
+            continue;
+        }
+        let hits = known_hits.get(&f.key()).copied().unwrap_or(0);
+        println!("KNOWN-FINDING: property={} {} [witness {} still fails; hit {} more time(s) in this batch]", f.property, f.what, f.witness.clone().unwrap_or_default(), hits);
     }
 
     // evidence
@@ -476,6 +538,8 @@ pub fn run_check(check: &dyn Check, tier: Tier) -> i32 {
             "workers": n,
             "capped_by_wall_clock": capped,
             "known_findings_reproduced": known_hits,
+            "known_findings_witness_still_failing": still_failing,
+            "steering_in_force": steer,
             "components": check.real_vs_stub(),
             "notes": stats.notes,
         },
